@@ -17,7 +17,7 @@ from ..kinds import has_call, reach
 from ..model import AnalysisError, unparse
 from ..report import RuleResult
 from ._c07_flow import ChildMasks, MaskedCells, ShrinkGuard
-from ._c07_util import (KEEP_ORDER, KEEP_SET, call_arg, dependence_leaves, derived_names, desugar_setattr, enclosing_ifs, falls_off, fname, is_setattr,
+from ._c07_util import (KEEP_ORDER, KEEP_SET, call_arg, dependence_leaves, derived_names, desugar_setattr, enclosing_ifs, falls_off, fname, fold_const, is_setattr,
                         literal_resolver, name_defs, reach3, real_defs, tv3, unfold_filtered_loops, unfold_generator_loops, unknown_leaves, xp, xt)
 
 ASSOC = {"vertices": "VERTEX", "cells": "CELL"}
@@ -682,6 +682,10 @@ def _empty_set_reductions(fn):
     def atom(e):
         if size_of(e):
             return False  # 0 is falsy
+        if isinstance(e, ast.Name):
+            # a flag: a constant bound once (the argument a helper was called with, a hoisted constant)
+            c = fold_const(e, node)
+            return bool(c.value) if c is not None else None
         if isinstance(e, ast.Compare) and len(e.ops) == 1:
             a, b, op = e.left, e.comparators[0], type(e.ops[0])
             flip = {ast.Lt: ast.Gt, ast.LtE: ast.GtE, ast.Gt: ast.Lt, ast.GtE: ast.LtE, ast.Eq: ast.Eq, ast.NotEq: ast.NotEq}
